@@ -163,6 +163,32 @@ def run(ctx, tier):
                 ctx.violation("result-depends-on-numpy-error-state:" + _name(fn).split(".")[-1], function=_name(fn), args=repr(a)[:300],
                               default_state=repr(_norm(base))[:300], errors_raised=repr(_norm(alt))[:300], monitor="replay", case=None)
     ctx.hit("replay_with_fp_errors_raised", ne)
+    # phase 1h: real-valued arguments handed over as 0-d numpy arrays (an element picked with track[i, ...], an xarray value):
+    # the answer is that of the scalar, the caller's array is left untouched, and asking twice gives the same
+    nz = 0
+    if np is not None:
+        for i in order[:3000]:
+            fn, a, k, want = rec[i]
+            idxs = [j for j, x in enumerate(a) if type(x) is float or isinstance(x, np.floating)]
+            if not idxs:
+                continue
+            base = probe.call(fn, *_copy(a), **_copy(k))
+            arrs = list(_copy(a))
+            for j in idxs:
+                arrs[j] = np.array(a[j])      # same dtype as the scalar (float64 for Python floats)
+            keep = [arrs[j].copy() for j in idxs]
+            alt = probe.call(fn, *arrs, **_copy(k))
+            alt2 = probe.call(fn, *arrs, **_copy(k))
+            nz += 1
+            ctx.ev(3)
+            if alt[0] == "exc" and alt[1] in ("TypeError",) and base[0] == "ok":
+                continue      # a function may refuse array arguments; not judged
+            changed = any(not np.array_equal(arrs[j], kp, equal_nan=True) for j, kp in zip(idxs, keep))
+            if changed or repr(_norm(alt)) != repr(_norm(base)) or repr(_norm(alt2)) != repr(_norm(alt)):
+                ctx.violation("zero-dim-array-argument-mishandled:" + _name(fn).split(".")[-1], function=_name(fn), args=repr(a)[:300],
+                              with_scalar=repr(_norm(base))[:200], with_0d_array=repr(_norm(alt))[:200], second_call=repr(_norm(alt2))[:200],
+                              callers_array_modified=bool(changed), monitor="replay", case=None)
+    ctx.hit("replay_zero_dim_array_calls", nz)
     # phase 1c: each call preceded by a few calls taken from the workloads of ALL properties (another decoder's early
     # return or exception path may leave a module-level setting behind)
     cpath = os.environ.get("PMV_CORPUS")
